@@ -105,7 +105,7 @@ static std::vector<std::pair<long, long>> axis_ranges(long N, int cls, vh::rng& 
         for (long o = 0; o < N; ++o) for (long d = 1; d <= N - o; ++d) if (axis_class(N, o, d) == cls) v.push_back({ o, d });
         return v;
     }
-    long k = vh::thorough() ? 6 : 2;
+    long k = vh::thorough() ? 10 : 2;
     switch (cls) {
     case 0: v.push_back({ 0, N }); break;
     case 1: v.push_back({ 0, 1 }); v.push_back({ 0, N - 1 }); v.push_back({ 0, N / 2 }); for (long i = 0; i < k; ++i) v.push_back({ 0, 1 + (long)r.below(N - 1) }); break;
@@ -439,8 +439,17 @@ static std::string written(View const& v, Info const& info) {
 static uint64_t fs(uint64_t k) { return vh::mix(vh::seed(), k); }
 template <class Img> static Img seeded_image(int w, int h, uint64_t seed) { Img im(w, h); cio::fill_view(gil::view(im), fs(seed), 0); return im; }
 // small sizes for which every sub-rectangle is enumerated, and two larger ones with odd row residues
-static const int SMALL[][2] = { { 8, 8 }, { 5, 3 }, { 1, 1 }, { 3, 7 }, { 1, 6 }, { 7, 1 } };
-static const int LARGE[][2] = { { 33, 17 }, { 18, 9 } };
+struct sz_t { int d[2]; int operator[](int i) const { return d[i]; } };
+static std::vector<sz_t> sizes(bool small) {
+    std::vector<sz_t> v;
+    if (small) { v = { { { 8, 8 } }, { { 5, 3 } }, { { 1, 1 } }, { { 3, 7 } }, { { 1, 6 } }, { { 7, 1 } } };
+                 if (vh::thorough()) { sz_t more[] = { { { 2, 2 } }, { { 4, 8 } }, { { 8, 3 } }, { { 6, 6 } }, { { 2, 7 } }, { { 8, 1 } }, { { 1, 8 } }, { { 7, 5 } } }; v.insert(v.end(), more, more + 8); } }
+    else { v = { { { 33, 17 } }, { { 18, 9 } } };
+           if (vh::thorough()) { sz_t more[] = { { { 40, 23 } }, { { 64, 5 } }, { { 17, 64 } }, { { 9, 9 } }, { { 31, 32 } }, { { 16, 16 } } }; v.insert(v.end(), more, more + 6); } }
+    return v;
+}
+#define SMALL sizes(true)
+#define LARGE sizes(false)
 
 struct entry_t { file_t f; int kind; };      // kind: format-specific native-type selector
 static std::vector<entry_t>& files() { static std::vector<entry_t> v; return v; }
@@ -840,6 +849,7 @@ static void run_file(entry_t const& e, int path, int sub) {
 
 int main(int argc, char** argv) {
     vh::init(argc, argv);
+    cio::install_cleanup();
     build_files();
     for (size_t i = 0; i < files().size(); ++i)
         for (int p = 0; p < NPATHS; ++p) {
